@@ -28,7 +28,8 @@ LEVEL_TEXT = ("Lean 4 theorems: discipline_race_free (for every sequence of Lock
               "decided over a table regenerated from /repo by tools/lockfacts (every method of Configuration, Configurator, LocalSecretStore: lock "
               "mode, fields read and written): every observer-called method that is not a known finding takes the mutex in the right mode and so do "
               "all writers of what it touches. PARTIAL: the Configurator and the secret store have no lock (findings S-C18-a, S-C18-d), and the "
-              "informer-side weight-change handlers run generation outside any lock (S-C18-b); those are decided by the race-detector soak only.")
+              "informer-side weight-change handlers run generation outside any lock (S-C18-b); those are decided by the race-detector soak only."
+              " Regenerated obligations also cover no_access_before_lock (no field touched in front of the method's own Lock()) and writers_hold_exclusive_lock (no write under RLock() or without the lock, helpers included).")
 LEVEL_NOTE = "Assurance = weaker of (discipline theorem + regenerated lock table, race-detector soak of each role). Partial: see level text."
 TECHNIQUE = "Lean 4 proof (RW-lock discipline ⇒ no conflicting access pair, all schedules) + lock facts regenerated from source + race-detector soak of each observer role"
 
